@@ -222,7 +222,7 @@ class Lifecycle:
                 if not ok_id:
                     ai.event(n, "callback is not called with the task's id", st)
         # --- how the user coroutine ended
-        if n.op == "await" and n.awaited_user and f is self.wrapper and self.role_at(n, env, strip_cast(a.value)) == "CORO":
+        if n.op == "await" and n.awaited_user and (n.root or f) is self.wrapper and self.role_at(n, env, strip_cast(a.value)) == "CORO":
             if lab[0] == "c":
                 via = True
         return [(loc, slot, ccb, ecb, via, env)]
